@@ -17,7 +17,8 @@ def build(simkind, version, chartkind, states, sim_off, ch_off, sim_dbpm, ch_dbp
     from simfile.sm import SMSimfile, SMChart
     from simfile.ssc import SSCSimfile, SSCChart
     sim = (SMSimfile if simkind == "SM" else SSCSimfile)(string="")
-    if simkind == "SSC" and version is not None: sim["VERSION"] = version
+    # an SM simfile may carry a VERSION key too (any key can be set); it never makes the chart the source
+    if version is not None: sim["VERSION"] = version
     for k, v in SIM_VALUE.items(): sim[k] = v
     if sim_off is not None: sim["OFFSET"] = sim_off
     if sim_dbpm is not None: sim["DISPLAYBPM"] = sim_dbpm
@@ -84,7 +85,7 @@ def run(ctx):
         pats.append(tuple(rng.choice([0, 1, 2]) for _ in range(11)))
     pats = list(dict.fromkeys(pats))
     for simkind in ("SM", "SSC"):
-        for version in (VERSIONS if simkind == "SSC" else [None]):
+        for version in (VERSIONS if simkind == "SSC" else [None, "0.83", "1.0"]):
             for chartkind in (None, "SM", "SSC"):
                 ps = pats if (simkind == "SSC" and chartkind == "SSC") else pats[:3]
                 for st in ps:
@@ -152,7 +153,7 @@ def run(ctx):
     # displayed BPM ------------------------------------------------------------------------------------
     dreqs, dmetas = [], []
     for i in range(ctx.scale(600, 8000)):
-        simkind = rng.choice(["SM", "SSC"]); version = rng.choice(VERSIONS) if simkind == "SSC" else None
+        simkind = rng.choice(["SM", "SSC"]); version = rng.choice(VERSIONS) if simkind == "SSC" else rng.choice([None, None, "0.7", "0.83"])
         chartkind = rng.choice([None, "SSC", "SSC"])
         st = tuple(rng.choice([0, 0, 1, 2]) for _ in range(11))
         sim_d = rng.choice([None, "", rand_dbpm(rng)]); ch_d = rng.choice([None, "", rand_dbpm(rng)])
